@@ -263,7 +263,7 @@ class DewPoint:
         elif gas_conversion is None:
             f = self._T_error
             z_norm = z/z.sum()
-            zP = z * P
+            zP = z_norm * P
             T_guess, x = self._Tx_ideal(zP) 
             args = (P, z_norm, zP, x)
             try:
@@ -341,7 +341,7 @@ class DewPoint:
         elif gas_conversion is None:
             z_norm = z / z.sum()
             Psats = np.array([i(T) for i in self.Psats], dtype=float)
-            z_over_Psats = z / Psats
+            z_over_Psats = z_norm / Psats
             P_guess, x = self._Px_ideal(z_over_Psats)
             args = (T, z_norm, z_over_Psats, Psats, x)
             f = self._P_error
